@@ -341,6 +341,11 @@ func init() {
 				}
 				for _, n := range []string{"A_testdata", "B_random_CGZ"} {
 					cs = append(cs, fw.Case{ID: "hiding/" + n, Kind: "hiding", P: map[string]any{"inst": n}})
+					cs = append(cs, fw.Case{ID: "hiding+zero_knowledge/" + n, Kind: "hiding", P: map[string]any{"inst": n, "variant": "zk"}})
+					for k := 0; k < 4; k++ {
+						cs = append(cs, fw.Case{ID: fmt.Sprintf("document/unsupported_gate_at_the_end/%s/%d", n, k), Kind: "hiding", P: map[string]any{"inst": n, "variant": "unsupported_gate_at_the_end", "k": k}})
+						cs = append(cs, fw.Case{ID: fmt.Sprintf("document/unsupported_gate_in_the_middle/%s/%d", n, k), Kind: "hiding", P: map[string]any{"inst": n, "variant": "unsupported_gate_in_the_middle", "k": k}})
+					}
 				}
 				cs = append(cs, fw.Case{ID: "race", Kind: "race", P: map[string]any{}})
 				return cs
@@ -428,22 +433,66 @@ func init() {
 					if s == string(b) {
 						return fw.Inconcl("could not set hiding in the document")
 					}
-					path := filepath.Join(fw.VerifRoot(), "scratch", fmt.Sprintf("hiding_%s_%d.json", c.Str("inst"), os.Getpid()))
+					switch c.Str("variant") {
+					case "zk":
+						// what plonky2 writes for a real zero-knowledge circuit: both flags set
+						s2 := strings.Replace(s, `"zero_knowledge": false`, `"zero_knowledge": true`, 1)
+						if s2 == s {
+							return fw.Inconcl("could not set zero_knowledge in the document")
+						}
+						s = s2
+					case "unsupported_gate_at_the_end", "unsupported_gate_in_the_middle":
+						// not hiding: an unimplemented gate listed in the description must be refused
+						// wherever it stands (also beyond the last selector index)
+						var doc map[string]any
+						dec := json.NewDecoder(strings.NewReader(string(b)))
+						dec.UseNumber()
+						if err := dec.Decode(&doc); err != nil {
+							return fw.Inconcl(err.Error())
+						}
+						gs := doc["gates"].([]any)
+						bad := unsupportedIDs()[c.Int("k")%12]
+						if c.Str("variant") == "unsupported_gate_at_the_end" {
+							gs = append(gs, bad)
+						} else {
+							gs[len(gs)/2] = bad
+						}
+						doc["gates"] = gs
+						nb, _ := json.Marshal(doc)
+						s = string(nb)
+					}
+					path := filepath.Join(fw.VerifRoot(), "scratch", fmt.Sprintf("hiding_%s_%d.json", strings.NewReplacer("/", "_", "+", "_").Replace(c.ID), os.Getpid()))
 					os.MkdirAll(filepath.Dir(path), 0o755)
 					os.WriteFile(path, []byte(s), 0o644)
 					defer os.Remove(path)
 					refused := false
+					var cdRead types.CommonCircuitData
 					func() {
 						defer func() {
 							if r := recover(); r != nil {
 								refused = true
 							}
 						}()
-						types.ReadCommonCircuitData(path)
+						cdRead = types.ReadCommonCircuitData(path)
 					}()
+					if !refused && strings.HasPrefix(c.Str("variant"), "unsupported") {
+						// identifiers are resolved when the circuit is defined: the refusal may come there,
+						// but the proof must not verify against such a description
+						in2 := in.Restrict(1).Clone()
+						in2.Common = cdRead
+						res := runVerifier(in2, engine.Options{Face: engine.Native})
+						o.Events += events(res)
+						if res.Verdict != engine.Accept {
+							refused = true
+							o.Inc("unsupported_gate_refused_at_definition")
+						}
+					}
 					o.Events++
 					if !refused {
-						return fw.Violate("hiding_not_refused", "ReadCommonCircuitData accepted a document with hiding=true ("+c.Str("inst")+")")
+						if v := c.Str("variant"); strings.HasPrefix(v, "unsupported") {
+							return fw.Violate("unsupported_gate_in_document_not_refused:"+v, "ReadCommonCircuitData accepted a description listing an unimplemented gate ("+c.Str("inst")+")")
+						}
+						return fw.Violate("hiding_not_refused", "ReadCommonCircuitData accepted a document with hiding=true ("+c.Str("inst")+" "+c.Str("variant")+")")
 					}
 					// control: the unmodified document is read
 					func() {
